@@ -26,7 +26,10 @@ SHARD = 40
 RULE = ("seeded random DCOPs: 1-7 variables, domain sizes 1-3 (values offset from their index), n-ary matrix "
         "constraints of arity 1-4, expression constraints (linear / abs / equality), duplicate scopes, unary "
         "constraints, variables with (partial) cost dicts, costs mostly small and in 8% of the cases up to +/-3e9 or around 2^31 (the old int32 sentinel), min and max, shapes random/tree/chain/clique/forest "
-        "with isolated variables, variables added to the DCOP in a shuffled order in 30% of the cases; the "
+        "with isolated variables, variables added to the DCOP in a shuffled order in 30% of the cases, declared "
+        "initial_value of the variables in 45% of the cases (biased to an optimal assignment), 15% families of 2-3 "
+        "related DCOPs (same names/domains/tables; other variable order or one more leaf variable) solved one after "
+        "the other in the same process, each solve its own case; the "
         "pseudo-tree is the one pseudotree.build_computation_graph returns; the "
         "real DpopAlgo objects are driven thread-free by netdriver under a seeded start order and per-channel "
         "FIFO schedule from 6 policies (15% truncated schedules to compare intermediate states). "
@@ -120,7 +123,7 @@ def _expr(rng, scope, doms, offs):
 
 def gen(rng, n, tier):
     cases = []
-    for _ in range(n):
+    while len(cases) < n:
         shape = rng.choice(["random", "random", "tree", "chain", "clique", "forest", "sparse"])
         nv = rng.randint(1, 7)
         if shape == "clique":
@@ -183,9 +186,60 @@ def gen(rng, n, tier):
         # order in which the variables are added to the DCOP (= dcop.variables order = the order the
         # pseudo-tree builder receives them); None = v00, v01, ...
         vorder = rng.sample(range(nv), nv) if rng.random() < 0.3 else None
-        cases.append(dict(mode=rng.choice(["min", "max"]), doms=doms, offs=offs, cons=cons, vcost=vcost,
-                          seed=rng.randrange(10**9), steps=steps, shape=shape, vorder=vorder))
-    return cases
+        case = dict(mode=rng.choice(["min", "max"]), doms=doms, offs=offs, cons=cons, vcost=vcost,
+                    seed=rng.randrange(10**9), steps=steps, shape=shape, vorder=vorder, init=None)
+        # declared initial_value of the variables (domain index or None): DPOP never reads it, but the
+        # base class compares selections with a "previous value"; biased to an optimal assignment so
+        # that the single selection of DPOP often EQUALS the declared initial value
+        if rng.random() < 0.45:
+            best = _argopt(case)
+            case["init"] = [None if rng.random() < 0.2 else
+                            (best[i] if rng.random() < 0.65 else rng.randrange(doms[i])) for i in range(nv)]
+        cases.append(case)
+        # families: 2-3 related DCOPs solved one after the other IN THE SAME PROCESS (the earlier
+        # members are the "prelude" of the later ones, run_impl solves them first), re-using the same
+        # variable names, domains, cost tables and constraint names, so that most nodes are EQUAL
+        # (same variable + constraints) but placed differently in the pseudo-tree
+        if rng.random() < 0.15 and len(cases) + 1 < n:
+            fam = [case]
+            for _m in range(rng.choice([1, 1, 2])):
+                if len(cases) >= n:
+                    break
+                fam.append(_relative(rng, fam[-1], lo, hi))
+                mem = fam[-1]
+                mem["prelude"] = [{k: v for k, v in f.items() if k != "prelude"} for f in fam[:-1]]
+                cases.append(mem)
+    return cases[:n]
+
+
+def _relative(rng, c, lo, hi):
+    """a DCOP related to c: same names / domains / tables; either the variables are handed to the
+    DCOP in another order (ties of the root and neighbour heuristics break differently: other root,
+    other tree, every node equal) or a new leaf variable is attached to an existing one (the
+    neighbour counts change: other root, the other nodes keep variable + constraints)"""
+    import copy
+    d = copy.deepcopy({k: v for k, v in c.items() if k != "prelude"})
+    nv = len(d["doms"])
+    d["seed"] = rng.randrange(10**9)
+    d["steps"] = None
+    if nv >= 7 or rng.random() < 0.5:
+        cur = d["vorder"] or list(range(nv))
+        new = cur[::-1] if rng.random() < 0.5 else rng.sample(range(nv), nv)
+        d["vorder"] = new
+        d["shape"] = c["shape"] + "+reorder"
+    else:
+        x = rng.randrange(nv)
+        d["doms"].append(rng.choice([2, 3]))
+        d["offs"].append(rng.choice([0, 3]))
+        d["vcost"].append(None)
+        if d.get("init") is not None:
+            d["init"].append(None)
+        if d["vorder"] is not None:
+            d["vorder"].append(nv)
+        sc = [x, nv] if rng.random() < 0.5 else [nv, x]
+        d["cons"].append(dict(scope=sc, kind="matrix", table=_rand_table(rng, [d["doms"][y] for y in sc], lo, hi)))
+        d["shape"] = c["shape"] + "+leaf"
+    return d
 
 
 # ------------------------------------------------------------------ implementation driver
@@ -212,10 +266,13 @@ def build_dcop(c):
     vs = []
     for i in range(nv):
         dom = Domain("d%02d" % i, "d", [c["offs"][i] + k for k in range(c["doms"][i])])
+        ini = (c.get("init") or [None] * nv)[i]
+        ini = None if ini is None else c["offs"][i] + ini
         if c["vcost"][i] is None:
-            vs.append(Variable(_v(i), dom))
+            vs.append(Variable(_v(i), dom, initial_value=ini))
         else:
-            vs.append(VariableWithCostDict(_v(i), dom, {c["offs"][i] + int(k): w for k, w in c["vcost"][i].items()}))
+            vs.append(VariableWithCostDict(_v(i), dom, {c["offs"][i] + int(k): w for k, w in c["vcost"][i].items()},
+                                           initial_value=ini))
     dcop = DCOP("t", c["mode"])
     for i in (c.get("vorder") or range(nv)):
         dcop.add_variable(vs[i])
@@ -228,6 +285,15 @@ def build_dcop(c):
 
 
 def run_impl(c):
+    # the earlier members of the case's family are solved first, in this very process (graph,
+    # get_dfs_relations, computations, a full run): state kept across solves by the library
+    # (module-level caches, class attributes) then meets the related DCOP of the case
+    for p in c.get("prelude") or []:
+        _run_one(p)
+    return _run_one(c)
+
+
+def _run_one(c):
     import random
     from importlib import import_module
     import numpy
@@ -330,6 +396,16 @@ def _optimum(c):
     return best
 
 
+def _argopt(c):
+    """the lexicographically first optimal assignment (domain indices), by brute force"""
+    best, arg = None, None
+    for asg in itertools.product(*[range(k) for k in c["doms"]]):
+        v = _cost(c, asg)
+        if best is None or (v < best if c["mode"] == "min" else v > best):
+            best, arg = v, list(asg)
+    return arg
+
+
 def oracle(c, o):
     nv = len(c["doms"])
     names = [_v(i) for i in range(nv)]
@@ -356,7 +432,9 @@ def oracle(c, o):
             return "%s never reported finished although every message was delivered" % n_
         v = o["final"][n_][0]
         if v is None or not (0 <= v < c["doms"][i]):
-            return "%s has no value of its domain at the end (%r)" % (n_, v)
+            return "%s reported finished but has no value of its domain at the end (current_value %r)" % (n_, v)
+        if sels.get(n_) != [v]:
+            return "%s holds value %r but its value selections were %r" % (n_, v, sels.get(n_, []))
         asg.append(v)
     got, opt = _cost(c, asg), _optimum(c)
     if got != opt:
@@ -463,7 +541,8 @@ def nontrivial(c, o):
 def histogram(cases, obs):
     h = {"complete": 0, "truncated": 0, "min": 0, "max": 0, "util_msgs": 0, "value_msgs": 0, "raises": 0,
          "max_util_dims": 0, "components>1": 0, "with_varcost": 0, "with_nary>=3": 0, "with_expr": 0,
-         "pseudo_parents": 0}
+         "pseudo_parents": 0, "with_initial_value": 0, "selected==initial_value": 0, "family_members": 0,
+         "family_tree_changed": 0}
     for c, o in zip(cases, obs):
         if "log" not in o:
             continue
@@ -474,6 +553,11 @@ def histogram(cases, obs):
         h["with_expr"] += any(cc["kind"] == "expr" for cc in c["cons"])
         h["components>1"] += sum(1 for t in o["tree"].values() if t[0] is None) > 1
         h["pseudo_parents"] += any(t[2] for t in o["tree"].values())
+        ini = c.get("init") or []
+        h["with_initial_value"] += any(x is not None for x in ini)
+        h["selected==initial_value"] += any(x is not None and o["final"].get(_v(i), [None])[0] == x
+                                            for i, x in enumerate(ini))
+        h["family_members"] += bool(c.get("prelude"))
         for e in o["log"]:
             if e[0] == "send" and e[3] == "util":
                 h["util_msgs"] += 1
@@ -497,6 +581,14 @@ def shrink_candidates(c):
     if c["steps"] is not None:
         d = dict(c)
         d["steps"] = None
+        yield d
+    if c.get("init"):
+        d = dict(c)
+        d["init"] = None
+        yield d
+    if c.get("prelude"):
+        d = dict(c)
+        d["prelude"] = c["prelude"][1:]
         yield d
 
 
